@@ -85,7 +85,11 @@ def generate(c, registry=REGISTRY):
         gt = T.parse_type(gty) if isinstance(gty, str) else gty
         from .values import empty_set, empty_seq, empty_dict, const_int
         init = {'set': empty_set, 'list': empty_seq, 'dict': empty_dict}.get(gt[0])
-        state.bind(gname, init(gt) if init else const_int(0))
+        if gt == T.BOOL:
+            from .values import const_bool
+            state.bind(gname, const_bool(False))
+        else:
+            state.bind(gname, init(gt) if init else const_int(0))
     ctx.entry = state.copy()
     ctx.entry.pc = state.pc
     for text, expr in c.parsed('requires'):
@@ -101,7 +105,12 @@ def generate(c, registry=REGISTRY):
         sv.add(f_)
     if sv.check() == z3.unsat:
         raise VacuousContract(f"{c.qualname}: requires is unsatisfiable (guard G-V)")
+    base_len = len(state.pc)
     outs = ex.block(fn.body, state)
+    if len(outs) > 8:
+        from .execs import merge_outcomes
+        outs = [Outcome('return', o.state, value=NONEVAL) if o.kind == 'normal' else o for o in outs]
+        outs = merge_outcomes(outs, base_len)
     entry_env = ctx.entry.env
     n_paths = 0
     for o in outs:
@@ -110,7 +119,7 @@ def generate(c, registry=REGISTRY):
         if o.kind in ('break', 'continue'):
             raise Unsupported("break/continue outside loop")
         if o.kind == 'raise' and lenient and c.unexpected_exceptions == 'allowed' \
-                and not c.raises:
+                and not c.raises and not c.ensures_exc and not c.ensures_all:
             continue
         if not feasible(o.state):
             continue
@@ -132,9 +141,11 @@ def generate(c, registry=REGISTRY):
                     raise Unsupported(f"returned value of type {T.show(val.ty)} is not {T.show(rty)}")
             post.ghost['result'] = val
             post.ghost['__final__'] = st      # final values of locals: spec function final('name')
-            for text, expr in c.parsed('ensures'):
+            post.final_env = st.env
+            post.final_asg = st.asg
+            for text, expr in c.parsed('ensures') + c.parsed('ensures_all'):
                 g = spec_eval(ctx, ev, post, expr)
-                ctx.oblige(post, g, 'ensures', fn, f"ensures {text}")
+                ctx.oblige(post, g, 'ensures', fn, f"ensures {text}", assume=False)
             for exc, (mode, text, expr) in c.parsed_raises().items():
                 if mode == 'iff' and expr is not None:
                     g = spec_eval(ctx, ev, ctx_entry_view(ctx, st), expr)
@@ -144,6 +155,19 @@ def generate(c, registry=REGISTRY):
                 g = spec_eval(ctx, ev, ctx_entry_view(ctx, st), ast.parse(text, mode='eval').body)
                 ctx.oblige(post, z3.Not(g), 'must-raise', fn, f"normal return only if not ({text})")
         elif o.kind == 'raise':
+            if c.ensures_exc or c.ensures_all:
+                postx = State()
+                postx.pc = st.pc
+                postx.cells = st.cells
+                postx.env = dict(entry_env)
+                postx.asg = dict(ctx.entry.asg)
+                postx.ghost = dict(st.ghost)
+                postx.final_env = st.env
+                postx.final_asg = st.asg
+                for text, expr in c.parsed('ensures_exc') + c.parsed('ensures_all'):
+                    g = spec_eval(ctx, ev, postx, expr)
+                    ctx.oblige(postx, g, 'ensures-exc', fn, f"on exceptional exit ({o.exc}): {text}",
+                               assume=False)
             allowed = None
             for exc, (mode, text, expr) in c.parsed_raises().items():
                 if exc_is(o.exc, exc) or (o.exc == 'Exception' and lenient and exc == 'Exception'):
@@ -195,6 +219,32 @@ def _mk_solver(ob, axioms, timeout_ms, opts):
     return s
 
 
+def _has_quantifier(t, cache):
+    todo = [t]
+    while todo:
+        x = todo.pop()
+        i = x.get_id()
+        if i in cache:
+            continue
+        cache.add(i)
+        if z3.is_quantifier(x):
+            return True
+        todo.extend(x.children())
+    return False
+
+
+def _ground_attempt(ob, axioms, timeout_ms):
+    hyps = [h for h in list(axioms) + list(ob.hyps) if not _has_quantifier(h, set())]
+    if len(hyps) == len(axioms) + len(ob.hyps):
+        return False
+    s = z3.Solver()
+    s.set('timeout', int(timeout_ms))
+    for h in hyps:
+        s.add(h)
+    s.add(z3.Not(ob.goal))
+    return s.check() == z3.unsat
+
+
 def solve_one(ob, axioms, timeout_ms=None, want_model=True):
     """portfolio: z3 default, cvc5, then z3 MBQI-only / E-matching-only / other seed.
     proved = some back end says unsat; refuted = some back end produces a model;
@@ -220,6 +270,14 @@ def solve_one(ob, axioms, timeout_ms=None, want_model=True):
             return 'refuted', label, time.time() - t0, model, None
         reasons.append(f"{label}:{s.reason_unknown()}")
         if n == 0:
+            # arithmetic obligations buried under quantified hypotheses: retry with the
+            # quantifier-free hypotheses only (dropping hypotheses is sound for `proved`;
+            # a model found here proves nothing and is ignored)
+            try:
+                if _ground_attempt(ob, axioms, min(3000, max(500, timeout_ms * 0.2))):
+                    return 'proved', 'z3(ground-hyps)', time.time() - t0, None, None
+            except z3.Z3Exception:
+                pass
             try:
                 v = run_cvc5(first.to_smt2(), timeout_ms=max(1000, timeout_ms // 2))
                 if v == 'unsat':
